@@ -61,6 +61,8 @@ def eval_case(spec, case, traces, out, record=True):
     """traces: {backend: trace}. returns list of (kind, msg, backend, index)"""
     probs = []
     for backend, trace in traces.items():
+        if hasattr(spec, "normalize"):
+            trace = spec.normalize(trace)
         i = first_divergence(trace)
         if i is not None:
             if spec.relevant(i, trace):
